@@ -7,8 +7,10 @@
 (* curve and modular arithmetic.  kind "em" requests a bare RSASP1 of a driver-     *)
 (* crafted encoded message (malformed paddings), prefixed.  The answers go back to  *)
 (* the driver, which feeds them - intact and mutated - to Tink's verifiers;         *)
-(* Trace_Sig then judges every verdict.                                             *)
-EXTENDS TinkSig, Json, IOUtils, TLC
+(* Trace_Sig then judges every verdict.  For ECDSA/DER requests the answer also     *)
+(* carries the re-encodings of a reference signature generated from the shape       *)
+(* grammar DERShapes (the same family MC_DER checks the strict parser on).          *)
+EXTENDS TinkSig, DERShapes, SequencesExt, Json, IOUtils, TLC
 
 Req == ndJsonDeserialize(IOEnv.VERIF_REQ)
 
@@ -18,11 +20,28 @@ Cfg(q) == [alg |-> q.alg, curve |-> q.curve, hash |-> q.hash, mgf |-> q.mgf, enc
 Sk(q) == IF q.alg \in {"RSA_PKCS1", "RSA_PSS"} THEN [n |-> HexToBytes(q.n), d |-> HexToBytes(q.sk)]
          ELSE HexToBytes(q.sk)
 
+\* Re-encodings (lib/DERShapes.tla) of a reference ECDSA signature, requested by q.shapes =
+\* 0 (none) | 1 | 2 (shapes with at most that many deviations) | 9 (the full product).
+Shapes1   == SetToSeq(ShapesUpTo(1) \ {Default})
+Shapes2   == SetToSeq(ShapesUpTo(2) \ {Default})
+ShapesAll == SetToSeq(Shapes \ {Default})
+ShapeSeq(k) == IF k = 1 THEN Shapes1 ELSE IF k = 2 THEN Shapes2 ELSE ShapesAll
+
+Reencodings(q) ==
+  LET c   == Cfg(q)
+      m   == LegacyMsg(c.variant, HexToBytes(q.msg))
+      rs  == ECDSASignDigestRS(c.curve, Sk(q), Hash(c.hash, m))
+      shs == ShapeSeq(q.shapes)
+  IN [i \in 1..Len(shs) |-> [k |-> ShapeName(shs[i]),
+                              s |-> BytesToHex(Prefix(c.variant, c.id) \o Build(shs[i], rs[1], rs[2]))]]
+
 Answer(q) ==
   IF q.kind = "em"
-  THEN [rid |-> q.rid, sig |-> BytesToHex(Prefix(q.variant, HexToBytes(q.id))
-                                          \o RSAPrivateOp(HexToBytes(q.n), HexToBytes(q.sk), HexToBytes(q.msg)))]
-  ELSE [rid |-> q.rid, sig |-> BytesToHex(SigSign(Cfg(q), Sk(q), HexToBytes(q.salt), HexToBytes(q.msg)))]
+  THEN [rid |-> q.rid, re |-> <<>>,
+        sig |-> BytesToHex(Prefix(q.variant, HexToBytes(q.id))
+                           \o RSAPrivateOp(HexToBytes(q.n), HexToBytes(q.sk), HexToBytes(q.msg)))]
+  ELSE [rid |-> q.rid, re |-> IF q.shapes > 0 THEN Reencodings(q) ELSE <<>>,
+        sig |-> BytesToHex(SigSign(Cfg(q), Sk(q), HexToBytes(q.salt), HexToBytes(q.msg)))]
 
 VARIABLE done
 Init == done = ndJsonSerialize(IOEnv.VERIF_OUT, [i \in 1..Len(Req) |-> Answer(Req[i])])
